@@ -229,9 +229,15 @@ def testedSpecs (file : String) : Pkg → List TSpec
   | [] => []
   | f :: r => (if file == "" || f.name == file then f.tspecs else []) ++ testedSpecs file r
 
+/-- `new` (since /repo 1819261): the walk does not descend into function bodies (*ast.FuncDecl / *ast.FuncLit are cut off),
+    so only the package-level TypeSpecs of the tested files are seen -/
+def testedTop (file : String) : Pkg → List TSpec
+  | [] => []
+  | f :: r => (if file == "" || f.name == file then topSpecs f.decls else []) ++ testedTop file r
+
 def listTypes (cmd : Cmd) (pkg : Pkg) (file : String) : Except Stop (List String) :=
   match cmd with
-  | .new => pure (listNew (testedSpecs file pkg))
+  | .new => pure (listNew (testedTop file pkg))
   | .map => pure (listMap (testedSpecs file pkg))
   | .enum => pure (listEnum (testedSpecs file pkg))
   | .rest => pure (listRest (testedSpecs file pkg))
@@ -261,6 +267,14 @@ def constsOf (n : String) : Pkg → List String
 
 def namedSpecs (pkg : Pkg) (n : String) : List TSpec := (allTSpecs pkg).filter (·.name == n)
 
+/-- every package-level TypeSpec of the package -/
+def allTop : Pkg → List TSpec
+  | [] => []
+  | f :: r => topSpecs f.decls ++ allTop r
+
+/-- `new`'s parseFields (since /repo 1819261): function bodies are not entered, a function-local type of that name is not seen -/
+def namedTop (pkg : Pkg) (n : String) : List TSpec := (allTop pkg).filter (·.name == n)
+
 /-- `obj.Type().Underlying().(*types.Basic).Info() & IsInteger == 0` -/
 def nonIntUnder (t : TSpec) : Bool := match t.under with | some k => !k.integer | none => false
 
@@ -281,8 +295,9 @@ def makeData (cmd : Cmd) (pkg : Pkg) (specified : Bool) (n : String) : Except St
   let ts := namedSpecs pkg n
   match cmd with
   | .new =>
-    -- testNode(name): a TypeSpec of that name which is not a struct -> Fatal "is not a struct type";
-    -- `_`-prefixed -> not found; nothing found -> Fatal "type not exists"
+    -- testNode(name) on the package-level TypeSpecs: one of that name which is not a struct -> Fatal "is not a struct type";
+    -- `_`-prefixed -> not found; nothing found (also: declared only inside a function) -> Fatal "type not exists"
+    let ts := namedTop pkg n
     if ts.any (fun t => t.shape != .struct) then throw .fatal
     else if ts.any (fun t => !underscore t.name) then pure true
     else throw .fatal
